@@ -397,11 +397,15 @@ PROPS["C17"] = {
                    "required; the event oneof has exactly one option per event pointing at the nested message of that name; the query service has Get / List / Events (GET) "
                    "whose path parameters are the primary (and shard) keys in declaration order; one command service per command, one event topic, one upsert topic per "
                    "summary; every part carries the same entity annotation. The client API must group them into a StateEntity with the declared primary key, events and command services."),
-    "level_note": "Sampled. Exact names are asserted for the generator's vocabulary only.",
-    "rule": ("entity: j5sgen.Draw(EntityOnly) with 1-2 files each holding an entity. Non-trivial: >=2 keys with different flag combinations, or >=1 event and >=1 summary. Distinct by hash of the sources."),
+    "level_note": ("Sampled. Exact names are asserted for the generator's vocabulary only (CamelCase words); the casing lane names the entity in any "
+                   "other casing (all caps, lower camel, underscores, digits, acronym runs), finds the components by their entity annotations and messaging roles instead, and requires "
+                   "that the package compiles, that the same structural predicates hold and that every component name spells the entity name."),
+    "rule": ("entity: j5sgen.Draw(EntityOnly) with 1-2 files each holding an entity. Non-trivial: >=2 keys with different flag combinations, or >=1 event and >=1 summary. Distinct by hash of the sources. "
+             "casing: one entity per package, named from a pool of 16 casings or a random re-casing of a word; every case is non-trivial."),
     "assumptions": ["README entity section; the statement of C17"],
     "lanes": [
-        lane("TestEntity", "entity", 200, 1200, shards=16, must_classes=["shard-key", "foreign-key", "tenant-key", "events:0", "summaries:2", "summary-unnamed-after-named", "commands:2", "command-options", "entity-nested-schema"]),
+        lane("TestEntity", "entity", 200, 1200, shards=16, must_classes=["shard-key", "foreign-key", "tenant-key", "events:0", "summaries:2", "summary-unnamed-after-named", "commands:2", "command-options", "entity-nested-schema", "enum-option-explicit-number"]),
+        lane("TestCasing", "casing", 120, 600, shards=4, must_classes=["casing:all-caps", "casing:all-lower", "casing:underscore", "casing:ends-in-capital", "casing:lower-camel"]),
     ],
 }
 
